@@ -16,7 +16,7 @@ TARGET_FORMS = ["none", "name", "attr", "nested_attr", "sub", "subname", "call_s
                 "star_first", "tuple_attr_sub", "global_name", "maybe_attr", "maybe_sub", "maybe_unpack",
                 # positional call of a callable held in a LOCAL variable; subscript by the constant ...; a slice with an
                 # omitted bound (not in the always-rendered set; if rendered, an omitted bound and None are the same target)
-                "call_local", "sub_ellipsis", "open_slice"]
+                "call_local", "sub_ellipsis", "open_slice", "call_noargs"]
 JUMPS = ("ret", "retk", "retv", "raise", "break", "continue")
 
 
